@@ -261,6 +261,22 @@ func (x *rtExt) probes() {
 				e.Probe("rt_retry_replays_half_close")
 			}
 		}
+		if sp := x.splits[id]; sp != nil {
+			// sender and receiver goroutine on one stream
+			e.Probe("rt_split_rpc")
+			if nt >= 2 {
+				e.Probe("rt_split_rpc_retried")
+			}
+			// a new attempt began while SendMsg / CloseSend was in progress, and
+			// the call still reported success: the operation has to be part of
+			// what the new attempt transmits
+			if sp.switchedInSend > 0 {
+				e.Probe("rt_split_attempt_began_inside_successful_sendmsg")
+			}
+			if sp.switchedInClose > 0 {
+				e.Probe("rt_split_attempt_began_inside_closesend")
+			}
+		}
 	}
 }
 
